@@ -36,7 +36,16 @@ Ev == Rec[l]
 Begin ==
   /\ Ev.e = "begin" /\ ~inRun
   /\ inRun' = TRUE /\ rootSeen' = FALSE
-  /\ UNCHANGED mvars
+  \* a new call / a new process: whatever an evaluation error of the previous one left open is gone
+  /\ stack' = <<>> /\ UNCHANGED <<cache, memo, captured>>
+
+\* a command-line loop starts the next (rules file, data file) pair / test case: nothing of
+\* the previous pair may be left open, and a fresh RootScope has to come first (C12)
+PairBegin ==
+  /\ Ev.e = "pair_begin" /\ inRun
+  /\ stack = <<>>
+  /\ rootSeen' = FALSE
+  /\ UNCHANGED <<inRun, cache, memo, stack, captured>>
 
 \* exactly one RootScope per evaluation, created before anything else is evaluated
 RootScopeNew ==
@@ -69,7 +78,7 @@ Cap ==
 \* the call returned.  On an evaluation error the open computations are abandoned.
 End ==
   /\ Ev.e = "end" /\ inRun
-  /\ IF Ev.ok
+  /\ IF Ev.ok /\ Ev.check
      THEN /\ rootSeen
           /\ LET final(name) == RefStatus(Ev.rules, name) IN Finish(final)
      ELSE UNCHANGED mvars
@@ -77,7 +86,7 @@ End ==
 
 Init == l = 1 /\ inRun = FALSE /\ rootSeen = FALSE /\ MInit
 Next == /\ l <= Len(Rec)
-        /\ (Begin \/ RootScopeNew \/ EvalBegin \/ RuleStatus \/ Var \/ Cap \/ End)
+        /\ (Begin \/ PairBegin \/ RootScopeNew \/ EvalBegin \/ RuleStatus \/ Var \/ Cap \/ End)
         /\ l' = l + 1
 Spec == Init /\ [][Next]_<<l, inRun, rootSeen, cache, memo, stack, captured>>
 
